@@ -174,6 +174,43 @@ func (e *Exec) check(st *State, kind string, instr ssa.Instruction, cond *Term) 
 	e.assume(st, cond)
 }
 
+// varargElems: the values stored into the array go/ssa allocates for the variadic tail of a call.
+func varargElems(v ssa.Value) ([]ssa.Value, bool) {
+	sl, ok := v.(*ssa.Slice)
+	if !ok {
+		return nil, false
+	}
+	arr, ok := sl.X.(*ssa.Alloc)
+	if !ok || arr.Comment != "varargs" || arr.Referrers() == nil {
+		return nil, false
+	}
+	byIdx := map[int64]ssa.Value{}
+	for _, r := range *arr.Referrers() {
+		ia, ok := r.(*ssa.IndexAddr)
+		if !ok {
+			continue
+		}
+		k, ok := ia.Index.(*ssa.Const)
+		if !ok || ia.Referrers() == nil {
+			return nil, false
+		}
+		for _, r2 := range *ia.Referrers() {
+			if st, ok := r2.(*ssa.Store); ok && st.Addr == ssa.Value(ia) {
+				byIdx[k.Int64()] = st.Val
+			}
+		}
+	}
+	var out []ssa.Value
+	for i := int64(0); i < int64(len(byIdx)); i++ {
+		el, ok := byIdx[i]
+		if !ok {
+			return nil, false
+		}
+		out = append(out, el)
+	}
+	return out, len(out) > 0
+}
+
 // ---------- running a function ----------
 
 func (e *Exec) newFrame(fn *ssa.Function) *Frame {
@@ -1035,6 +1072,13 @@ func (e *Exec) instr(fr *Frame, st *State, ins ssa.Instruction) {
 				vs = append(vs, Val{})
 			}
 			for _, a := range x.Call.Args {
+				// the arguments as written: a variadic tail built by the compiler (f(a, b, c)) is its elements
+				if elems, ok := varargElems(a); ok {
+					for _, el := range elems {
+						vs = append(vs, e.operand(fr, el))
+					}
+					continue
+				}
 				vs = append(vs, e.operand(fr, a))
 			}
 			if fr.callArgs == nil {
